@@ -272,8 +272,15 @@ def check_property(prop, tier, seed, rebaseline=False):
 
     def one(t):
         try:
-            return vrun.run_template(t, open_f.keys(), seed=(seed if tier == 'thorough' and seed else None),
-                                     rlimit=(120 if tier == 'thorough' else 30), tag='__' + prop)
+            rl = 120 if tier == 'thorough' else 30
+            sd = seed if tier == 'thorough' and seed else None
+            r = vrun.run_template(t, open_f.keys(), seed=sd, rlimit=rl, tag='__' + prop)
+            # a resource-limit outcome decides nothing: retry once with five times the budget before reporting it
+            if any(i['kind'] == 'resource' for i in r['issues']) or r['verus']['rc'] == 124:
+                r2 = vrun.run_template(t, open_f.keys(), seed=sd, rlimit=rl * 5, tag='__' + prop)
+                r2['retried_with_rlimit'] = rl * 5
+                return r2
+            return r
         except LostAnchor as e:
             return ('lost', t, str(e))
         except Exception as e:   # noqa
